@@ -466,7 +466,7 @@ package value
 
 // '+' on maps builds a view on both operands and writes nothing that existed before
 //@ func (v Map) Merge
-//@   property C09
+//@   property C09, C13
 //@   ensures[wrapper] result1 == nil ==> typeis(result0.m, MergeMap)
 //@   assigns nothing
 
